@@ -151,6 +151,11 @@ func (x *heapInst) Ops() []space.Op {
 	for _, s := range startSlices {
 		ops = append(ops, space.Op{Name: "Init", Args: s})
 	}
+	for _, s := range startSlices {
+		if len(s) >= 2 && len(s) <= 3 {
+			ops = append(ops, space.Op{Name: "InitOtherCmp", Args: s})
+		}
+	}
 	if n >= 1 {
 		ops = append(ops, space.Op{Name: "PopAllStop", Args: []int{1}})
 		for v := 0; v < numValues; v++ {
@@ -334,8 +339,17 @@ func (x *heapInst) apply(op space.Op) *space.Mismatch {
 			return mm("Heap."+fn+"|not-ignored|"+kind+"-handle", "%s changed the heap: %d elements before, %d after", what, len(before), len(backing(x.h)))
 		}
 
-	case "Init":
+	case "Init", "InitOtherCmp":
 		dropped := backing(x.h)
+		if op.Name == "InitOtherCmp" {
+			// re-initialisation with a DIFFERENT comparator: the heap must order by the new one
+			if x.k == cmpLess {
+				x.k = cmpGreater
+			} else {
+				x.k = cmpLess
+			}
+			x.cmp = x.k.fn()
+		}
 		if m := x.adoptInit(op.Args); m != nil {
 			return m
 		}
